@@ -25,6 +25,12 @@ Theorem C08_vars_layered : forall t ov k,
   match o_vars ov with Some e => match lookup k e with Some v => Some v | None => lookup k (s_vars t) end | None => lookup k (s_vars t) end.
 Proof. exact layer_vars_lookup. Qed.
 Print Assumptions C08_vars_layered.
+(* whatever else the task is made of - its name, commands, hooks, condition, variations, timeout, allow_failure, exportAs, context - is the
+   task's own in every use *)
+Theorem C08_other_fields_untouched : forall t ov, s_rest (layer t ov) = s_rest t.
+Proof. reflexivity. Qed.
+Print Assumptions C08_other_fields_untouched.
+
 Theorem C08_dir_layered : forall t ov, s_dir (layer t ov) = if Nat.eqb (o_dir ov) 0 then s_dir t else o_dir ov.
 Proof. exact layer_dir. Qed.
 Print Assumptions C08_dir_layered.
@@ -32,7 +38,7 @@ Print Assumptions C08_dir_layered.
 (* non-vacuity and the pinned defect: task 0 has env {1->10}, vars {5->50}; stage A overrides env 1->11, stage B has none.
    Repaired model: B is handed env 1->10.  Pinned model: B, prepared after A, is handed A's 1->11, and the task's
    variable 5 is gone from what A is handed. *)
-Definition t0 : nat -> settings := fun _ => mkSet [(1, 10)] [(5, 50)] 0.
+Definition t0 : nat -> settings := fun _ => mkSet [(1, 10)] [(5, 50)] 0 7.
 Definition usesAB : list use := [Stage 0 (mkOv (Some [(1, 11)]) (Some [(6, 60)]) 0); Stage 0 (mkOv None None 0)].
 Definition seqAB : list mstep := [MPrep 0; MHand 0; MPrep 1; MHand 1].
 Example C08_nonvacuous : map (fun p => (fst p, lookup 1 (s_env (snd p)))) (handed (mrun usesAB t0 seqAB)) = [(1, Some 10); (0, Some 11)].
@@ -40,7 +46,7 @@ Proof. vm_compute. reflexivity. Qed.
 Theorem C08_pinned_refuted : exists uses st0 sched u x,
   In (u, x) (handed (mrun_legacy uses st0 sched)) /\ forall us, nth_error uses u = Some us -> x <> expected st0 us.
 Proof.
-  exists usesAB, t0, seqAB, 1, (mkSet [(1, 11); (1, 10)] [(6, 60); (1, 11); (1, 10)] 0).
+  exists usesAB, t0, seqAB, 1, (mkSet [(1, 11); (1, 10)] [(6, 60); (1, 11); (1, 10)] 0 7).
   split; [vm_compute; left; reflexivity|].
   intros us H. vm_compute in H. injection H as <-. vm_compute. discriminate.
 Qed.
